@@ -11,6 +11,8 @@ import (
 
 // Ctx carries the loaded program plus the derived call graph and entry points.
 type Ctx struct {
+	memoWhy map[*ssa.Lookup]string
+	memos map[*ssa.Lookup]*memoInfo
 	expReads map[string]map[string][]prefixUse
 	Repo, Verif, Tier string
 	tables            map[ssa.CallInstruction]*tableInfo
